@@ -277,6 +277,11 @@ pub struct AimdBudget {
     deposit_amount: u64,
     /// Tokens to remove on withdraw
     withdraw_amount: u64,
+    /// Balance and dynamic maximum are two values: a withdrawal that finds the balance empty
+    /// lowers the maximum, a deposit credits up to the maximum. Each operation has to see and
+    /// update both as one step, or a deposit credits up to a maximum that a concurrent refusal
+    /// has already lowered.
+    serial: std::sync::Mutex<()>,
 }
 
 impl AimdBudget {
@@ -300,6 +305,7 @@ impl AimdBudget {
             limit_controller: AimdController::new(config),
             deposit_amount: deposit_amount as u64,
             withdraw_amount: withdraw_amount as u64,
+            serial: std::sync::Mutex::new(()),
         }
     }
 
@@ -311,6 +317,7 @@ impl AimdBudget {
 
 impl RetryBudget for AimdBudget {
     fn try_withdraw(&self) -> bool {
+        let _serial = self.serial.lock().unwrap_or_else(|e| e.into_inner());
         loop {
             let current = self.tokens.load(Ordering::Relaxed);
             if current < self.withdraw_amount {
@@ -330,6 +337,7 @@ impl RetryBudget for AimdBudget {
     }
 
     fn deposit(&self) {
+        let _serial = self.serial.lock().unwrap_or_else(|e| e.into_inner());
         let current_max = self.limit_controller.limit() as u64;
         let deposit_amount = self.deposit_amount;
 
